@@ -723,6 +723,7 @@ fn check_ret(
 // ---------------------------------------------------------------------------------------------
 // generators
 
+#[derive(Clone, Copy)]
 pub struct GenCfg {
     pub caps: &'static [usize],
     pub max_ops: usize,
